@@ -192,7 +192,8 @@ def case_history(case):
                 env = dict(os.environ, PYTHONHASHSEED="random")
                 r_ = subprocess.run([_sys.executable, "-c", code], capture_output=True, text=True, env=env, timeout=600)
                 if r_.returncode != 0:
-                    raise core.HarnessError("the earlier session failed: " + r_.stderr[-800:])
+                    last = [l for l in r_.stderr.strip().splitlines() if l and not l.startswith((" ", "Traceback", "Exception ignored", "RuntimeError: can't create"))]
+                    v.append({"sub": "fatal", "sig": "fatal/earlier-session", "msg": "request %s with a cache attached failed in a separately started interpreter: %s" % (name, (last[-1] if last else r_.stderr[-200:])[:200])})
                 continue
             if pattern == "two-process" and k == 0:
                 pid = os.fork()
